@@ -517,6 +517,11 @@ def mapping_verbatim(ctx, rule="R5"):
             and isinstance(tstores[0].value.args[0], ast.Dict) and [k.value for k in tstores[0].value.args[0].keys] == cols \
             and [U(inline(v, benv)) for v in tstores[0].value.args[0].values] == [f"existing_mapping[{i}]" for i in range(len(cols))] \
             and all(U(v) in [f"existing_mapping[{i}]" for i in range(len(cols))] for v in benv.values())
+        if not ok and len(tstores) == 1 and isinstance(tstores[0], ast.Assign) and isinstance(tstores[0].value, ast.Call) and call_name(tstores[0].value) == "pandas.DataFrame" \
+                and tstores[0].value.args and isinstance(tstores[0].value.args[0], (ast.DictComp, ast.Call, ast.Name)):
+            # the only statement of the branch builds the frame from a computed dict (a comprehension over the column names, dict(zip(..))):
+            # still one DataFrame of the mapping and nothing else, but which column gets which component is not read off a literal
+            raise AnalysisError(f"{f.site()}: the supplied-mapping table is built from a computed dict `{U(tstores[0].value.args[0])[:80]}`; the column / component pairing is not a literal this rule reads")
         ctx.check(rule, f"{f.site()}::mapping-used-verbatim", ok, f"table = DataFrame({{{cols}: existing_mapping[0..{len(cols) - 1}]}}) with no re-sorting or renumbering",
                   "in the supplied-mapping branch the id table is not built from the mapping's columns verbatim")
 
